@@ -56,6 +56,7 @@ def run(facts, rep, tier):
     rep.rule("R19.1", "presentation options are not read by, passed to, or in control of table updates", "P")
     rep.rule("R19.2", "observer coordinates reach only the distance column", "P")
     rep.rule("R19.3", "-U on/off store the same values for DF4/5/11/17", "P")
+    rep.rule("R19.5", "both update paths receive the same inputs: this line's digits and the frame decoded from them alone", "P")
     rep.rule("R19.4", "state written by the presentation path (display clock) never feeds table updates or expiry", "P")
     eff = Effects(facts)
     reg = Region(facts, eff)
@@ -116,6 +117,24 @@ def run(facts, rep, tier):
                                 reg.loc(s)))
             else:
                 rep.oblige(True, ("ctl", callee_name(t), s))
+    # R19.5: R19.3 compares the two paths on (message, DF::from_message(message)); the reader must hand the updater exactly
+    # that - a decoded frame that carries anything from earlier lines is seen by the default path only
+    from ..lineexpr import df_of_line, downlink_of_line, icao_of_line, message_of_line
+    from ..mirq import expr as _expr, show as _show
+    ups = [(bi, t) for bi, t, e in reg.effect_sites() if Effects.has_table(e) and callee_name(t) in facts.bodies
+           and any(tt["callee"].get("name") == "entry" for _, tt in facts.bodies[callee_name(t)].calls())]
+    n5 = 0
+    for bi, t in ups:
+        for a in t["args"]:
+            e = _expr(reg.du, a)
+            n5 += 1
+            ok = e[0] in ("arg", "const") or icao_of_line(e) or df_of_line(e) or message_of_line(e) or downlink_of_line(e)
+            rep.oblige(ok, ("updater-input", bi))
+            if not ok:
+                rep.add(Finding("R19.5", "updater input not derived from the current line alone",
+                                "%s receives %s: the two update paths are only comparable when both get this line's digits and "
+                                "DF::from_message of exactly those digits" % (callee_name(t), _show(e)[:120]), reg.loc(bi)))
+    rep.instances("R19.5", n5, floor=4, what="arguments of the table updater in the per-line region")
     # R19.4: counters fields written by code that prints (display_planes -> reset_timestamp) or initialised from -u are
     # presentation state; each must be display-only (effects.display_only_fields: read only by pure predicates whose result
     # controls nothing but output) - otherwise -i/-u leak into the table through shared state
